@@ -134,7 +134,7 @@ func DecodeBIP276(s string) (*BIP276, error) {
 		return nil, errors.New("layout")
 	}
 	body, ck := s[:len(s)-8], s[len(s)-8:]
-	if !strings.EqualFold(hex.EncodeToString(Sha256d([]byte(body))[:4]), ck) {
+	if hex.EncodeToString(Sha256d([]byte(body))[:4]) != ck { // the checksum is written in lower-case hex
 		return nil, errors.New("checksum")
 	}
 	vn, _ := hex.DecodeString(rest[:4])
